@@ -224,9 +224,28 @@ impl WTClient {
             // DISCUSS: It may be nice to independently compute the slots and compare
             tower.available_slots = available_slots;
 
-            self.dbm
-                .store_appointment_receipt(tower_id, locator, available_slots, receipt)
-                .unwrap();
+            // The same appointment may be accepted more than once (e.g. if the revocation is notified again after a restart).
+            if self
+                .dbm
+                .load_appointment_receipt(tower_id, locator)
+                .is_none()
+            {
+                self.dbm
+                    .store_appointment_receipt(tower_id, locator, available_slots, receipt)
+                    .unwrap();
+            }
+
+            // An accepted appointment is neither pending nor invalid anymore
+            if tower.pending_appointments.remove(&locator) {
+                self.dbm
+                    .delete_pending_appointment(tower_id, locator)
+                    .unwrap();
+            }
+            if tower.invalid_appointments.remove(&locator) {
+                self.dbm
+                    .delete_invalid_appointment(tower_id, locator)
+                    .unwrap();
+            }
         } else {
             log::error!("Cannot add appointment receipt to tower. Unknown tower_id: {tower_id}");
         }
@@ -244,6 +263,21 @@ impl WTClient {
     /// Adds a pending appointment to the tower record.
     pub fn add_pending_appointment(&mut self, tower_id: TowerId, appointment: &Appointment) {
         if let Some(tower) = self.towers.get_mut(&tower_id) {
+            // The appointment may be already known (e.g. if the revocation is notified again after a restart).
+            // An appointment is either accepted, pending or invalid, and only accepted ones can change.
+            if tower.pending_appointments.contains(&appointment.locator)
+                || tower.invalid_appointments.contains(&appointment.locator)
+                || self
+                    .dbm
+                    .load_appointment_receipt(tower_id, appointment.locator)
+                    .is_some()
+            {
+                log::debug!(
+                    "{} already known for {tower_id}. Not adding it to pending",
+                    appointment.locator
+                );
+                return;
+            }
             tower.pending_appointments.insert(appointment.locator);
 
             self.dbm
@@ -257,11 +291,12 @@ impl WTClient {
     /// Removes a pending appointment from the tower record.
     pub fn remove_pending_appointment(&mut self, tower_id: TowerId, locator: Locator) {
         if let Some(tower) = self.towers.get_mut(&tower_id) {
-            tower.pending_appointments.remove(&locator);
-
-            self.dbm
-                .delete_pending_appointment(tower_id, locator)
-                .unwrap();
+            // Nothing to be done unless the appointment is actually pending
+            if tower.pending_appointments.remove(&locator) {
+                self.dbm
+                    .delete_pending_appointment(tower_id, locator)
+                    .unwrap();
+            }
         } else {
             log::error!("Cannot remove pending appointment to tower. Unknown tower_id: {tower_id}");
         }
@@ -270,6 +305,19 @@ impl WTClient {
     /// Adds an invalid appointment to the tower record.
     pub fn add_invalid_appointment(&mut self, tower_id: TowerId, appointment: &Appointment) {
         if let Some(tower) = self.towers.get_mut(&tower_id) {
+            // The appointment may be already known (e.g. if the revocation is notified again after a restart).
+            if tower.invalid_appointments.contains(&appointment.locator)
+                || self
+                    .dbm
+                    .load_appointment_receipt(tower_id, appointment.locator)
+                    .is_some()
+            {
+                log::debug!(
+                    "{} already known for {tower_id}. Not adding it to invalid",
+                    appointment.locator
+                );
+                return;
+            }
             tower.invalid_appointments.insert(appointment.locator);
 
             self.dbm
